@@ -93,6 +93,9 @@ def run05(rep, tier):
             rep.violation("hash/reference-hash-changed-by-redaction", dict(det, observed=[o["reference_hash"], o["rh_redacted"]]))
         if o["rh_unsigned"] != o["reference_hash"] or o["ch_unsigned"] != o["content_hash"]:
             rep.violation("hash/depends-on-unsigned", dict(det, observed=[o["reference_hash"], o["rh_unsigned"], o["content_hash"], o["ch_unsigned"]]))
+        # `hashes` present, `signatures` and `unsigned` absent: the content hash covers neither of the three
+        if o["ch_bare"] != o["content_hash"]:
+            rep.violation("hash/content-hash-depends-on-signatures-unsigned-or-hashes", dict(det, observed=[o["content_hash"], o["ch_bare"]]))
     rep.sample({"case": brief(cases[3000]), "reference_pre_image": obs[3000]["rhpre"], "reference_hash": obs[3000]["reference_hash"]})
     # size boundary
     _, out, _ = vlib.run_harness(["size", "c05"])
